@@ -137,6 +137,23 @@ def build(e, K=2, S=2, M=1, crowd=0, usage=False, allow_list=True, blur=None,
         if ex is not None or c._mailbox is None:
             raise Inconclusive("setup: could not subscribe acting connection (%r)" % (ex,))
         x.subs.append((c, b, 0))
+    elif a_shape == "reopened0":
+        # opened, closed and opened again on the same connection (the once-only flag of close is spent,
+        # the connection is subscribed again)
+        b = B[0]
+        e.assume(b.p)
+        if o_shape == "sub0s0":
+            # (during set-up that close would be the last one of the only side and retire the mailbox
+            # under the other connection of the same side: not the shape this cast is meant to build)
+            e.assume(False)
+        x.app, x.side = b.app, b.sides[0].side
+        w.bind(c, x.app, x.side)
+        w.deliver(c, w.msg("open", mailbox=b.mid))
+        w.deliver(c, w.msg("close"))
+        ex = w.deliver(c, w.msg("open", mailbox=b.mid))
+        if ex is not None or c._mailbox is None:
+            raise Inconclusive("setup: could not re-subscribe acting connection (%r)" % (ex,))
+        x.subs.append((c, b, 0))
     elif a_shape == "claimed0":
         # the connection claimed b0.name earlier (the nameplate may or may not still exist)
         b = B[0]
